@@ -10,6 +10,11 @@ package obfuscation
 // Exhaustive over: all documents built from the shapes below (field names a/b repeated at different depths, arrays of
 // objects, every primitive kind) x every set of at most two exclusions out of ten paths in both notations. The REAL
 // ObfuscateJSON runs; the oracle is an independent walk over encoding/json's view of input and output.
+//
+// Second test: objects that carry the SAME member name more than once (RFC 8259 allows it, fastjson accepts it, written
+// literally or with an escape, at the top, nested, inside arrays). Which of the repeated members survives is not part of
+// the property; that none of their values reaches the output in clear text is: 9 documents x every set of at most two
+// exclusions out of 5 paths that do not cover the repeated member.
 // Labelled bounded: never counted as proved.
 
 import (
@@ -17,6 +22,7 @@ import (
 	"fmt"
 	"hash/crc32"
 	"strconv"
+	"strings"
 	"testing"
 )
 
@@ -124,4 +130,44 @@ func TestBoundedC16DocumentsAndExclusions(t *testing.T) {
 		}
 	}
 	t.Logf("REPLAY bounded: %d (document, exclusion set) cases checked", checked)
+}
+
+func TestBoundedC16RepeatedMemberNames(t *testing.T) {
+	docs := []string{
+		`{"a":"SECRET1","a":"SECRET2"}`,
+		`{"a":"SECRET1","b":"y","a":"SECRET2"}`,
+		`{"c\u0061":"SECRET1","ca":"SECRET2"}`,
+		`{"a":"x","a":{"b":"SECRET2","c":[7654321,"SECRET1"]}}`,
+		`{"a":{"b":"SECRET1"},"a":{"b":"SECRET2"}}`,
+		`[{"a":"SECRET1","a":"SECRET2"},{"a":7654321,"a":"SECRET2"}]`,
+		`{"b":{"a":"SECRET1","a":"SECRET2","a":7654321}}`,
+		`{"a":[1,2],"a":["SECRET1",{"a":"SECRET2","a":7654321}]}`,
+		`{"a":7654321,"a":7654321}`,
+	}
+	paths := []string{".z", ".b.z", "$.request.body.z", "[].z", "$.response.body.a.z"}
+	var sets [][]string
+	sets = append(sets, nil)
+	for i := range paths {
+		sets = append(sets, []string{paths[i]})
+		for j := i + 1; j < len(paths); j++ {
+			sets = append(sets, []string{paths[i], paths[j]})
+		}
+	}
+	o := Obfuscator{Hasher: boundedHasher{}}
+	checked := 0
+	for _, doc := range docs {
+		for _, excl := range sets {
+			out, err := o.ObfuscateJSON(doc, excl)
+			if err != nil {
+				t.Fatalf("REPLAY ObfuscateJSON failed on a valid document %s: %v", doc, err)
+			}
+			for _, secret := range []string{"SECRET1", "SECRET2", "7654321"} {
+				if strings.Contains(out, secret) {
+					t.Fatalf("REPLAY a value that is on no excluded path reaches the output in clear text: %s in %s (doc %s, exclusions %v)", secret, out, doc, excl)
+				}
+			}
+			checked++
+		}
+	}
+	t.Logf("REPLAY bounded: %d (document with repeated member names, exclusion set) cases checked", checked)
 }
